@@ -116,6 +116,7 @@ type Obligation struct {
 	ctx    *Ctx
 	candID int // >=0: Houdini candidate check (entry or preservation)
 	script string
+	exclude []string // declarations (axioms) that must not be used to prove this one
 }
 
 type Exec struct {
@@ -139,6 +140,10 @@ type Exec struct {
 	ghost    map[string]Value
 	staleMsgs []string
 	root     *frame
+	ufuns    map[string]*ufunInfo
+	rootLocs []*LocV
+	rootLocsDone bool
+	exitPos  token.Pos
 }
 
 type candidate struct {
@@ -181,6 +186,7 @@ type frame struct {
 	retName []string
 	callOcc map[string]int
 	outer   []*loopInfo // loops of callers that are active around this inlined call
+	retPoints []retPoint
 }
 
 // active lists the loops whose body is being executed at the current block.
@@ -197,6 +203,8 @@ func (fr *frame) active() []*loopInfo {
 type retPoint struct {
 	st  *State
 	val []Value
+	pos token.Pos
+	blk int
 }
 
 func fnKey(fn *ssa.Function) string {
@@ -452,10 +460,33 @@ func (x *Exec) runSeeded(fr *frame, st *State) ([]Value, *State) {
 	in := map[*ssa.BasicBlock][]inEdge{}
 	in[fn.Blocks[0]] = []inEdge{{nil, st}}
 	var rets []retPoint
-	for _, b := range rpo(fn) {
+	order := rpo(fn)
+	isRoot := fr == x.root
+	if isRoot {
+		anc := map[int]map[int]bool{}
+		for _, b := range order {
+			m := map[int]bool{}
+			for _, p := range b.Preds {
+				if backEdge(p, b) {
+					continue
+				}
+				m[p.Index] = true
+				for a := range anc[p.Index] {
+					m[a] = true
+				}
+			}
+			anc[b.Index] = m
+		}
+		x.c.anc = anc
+		defer func() { x.c.curBlk = -1 }()
+	}
+	for _, b := range order {
 		edges := in[b]
 		if len(edges) == 0 {
 			continue
+		}
+		if isRoot {
+			x.c.curBlk = b.Index
 		}
 		cur := x.mergeStates(edges, b)
 		delete(in, b)
@@ -498,7 +529,7 @@ func (x *Exec) runSeeded(fr *frame, st *State) ([]Value, *State) {
 				for i, r := range t.Results {
 					vals[i] = x.val(fr, r)
 				}
-				rets = append(rets, retPoint{cur, vals})
+				rets = append(rets, retPoint{cur, vals, t.Pos(), b.Index})
 				dead = true
 			case *ssa.Panic:
 				x.oblige(fr, cur, "panic", nonEmpty(x.p.srcText(t.Pos(), "call"), "panic"), t.Pos(), tFalse, "safety", "")
@@ -514,6 +545,7 @@ func (x *Exec) runSeeded(fr *frame, st *State) ([]Value, *State) {
 			}
 		}
 	}
+	fr.retPoints = rets
 	if len(rets) == 0 {
 		return nil, nil
 	}
